@@ -47,7 +47,7 @@ def serial_number_wrapper(f):
     @functools.wraps(f)
     @excel_helper(number_params=0)
     def wrapped(date_serial_number):
-        if date_serial_number < 0:
+        if date_serial_number < 0 or date_serial_number >= DATE_MAX_INT:
             return NUM_ERROR
         return f(date_serial_number)
     return wrapped
